@@ -2,19 +2,25 @@
 EXTENDS Remote, Json
 CONSTANTS MaxSend, MaxPeer,   \* bounds on what sources / the peer write
           MCKinds,            \* envelope kinds used by the environment in this configuration
-          PathSel             \* which DlPath table (below) this configuration uses
+          PathSel,            \* which DlPath table (below) this configuration uses
+          OneWay              \* the clients that attach as send-only (AttachClient::OneWay)
 
 \* bounds (CONSTRAINT) and environment restriction (ACTION_CONSTRAINT)
 Bound == cnt.send <= MaxSend /\ cnt.peer <= MaxPeer
 KindFilter == (lastAct'.k \in {"peer_send", "dl_send", "agent_send"}) => lastAct'.msg.kind \in MCKinds
 \* the path each downlink attaches to / writes to (cfg files cannot spell tuples, hence the selector)
-PathsA == << <<"n2", "l1">>, <<"n2", "l1">>, <<"n2", "l2">> >>     \* two downlinks share a lane, one on a sibling lane
-PathsB == << <<"n1", "l1">>, <<"n2", "l1">>, <<"n1", "l2">> >>     \* same lane name on two nodes, two lanes of one node
-DlPath == IF PathSel = "A" THEN PathsA ELSE PathsB
+PathsA == << <<"n2", "l1">>, <<"n2", "l1">>, <<"n2", "l2">>, <<"n1", "l2">> >>     \* two downlinks share a lane, one on a sibling lane
+PathsB == << <<"n1", "l1">>, <<"n2", "l1">>, <<"n1", "l2">>, <<"n2", "l2">> >>     \* same lane name on two nodes, two lanes of one node
+PathsC == << <<"n1", "l1">>, <<"n1", "l1">>, <<"n1", "l2">>, <<"n2", "l2">> >>     \* as A, on a node that also has an agent
+DlPath == IF PathSel = "A" THEN PathsA ELSE IF PathSel = "B" THEN PathsB ELSE PathsC
 \* downlinks attach in order of their ids (symmetry), to their configured path, and write to it
 DlScript == /\ (lastAct'.k = "attach_req") =>
                  /\ <<lastAct'.node, lastAct'.lane>> = DlPath[lastAct'.d]
                  /\ \A d \in Dls : d < lastAct'.d => dl[d].st # "new"
+            /\ (lastAct'.k = "attach_oneway") =>
+                 /\ lastAct'.d \in OneWay
+                 /\ \A d \in Dls : d < lastAct'.d => dl[d].st # "new"
+            /\ (lastAct'.k = "attach_req") => lastAct'.d \notin OneWay
             /\ (lastAct'.k = "dl_send") => <<lastAct'.msg.node, lastAct'.msg.lane>> = DlPath[lastAct'.d]
 \* reading from a channel commutes with everything else: do it first (partial-order reduction by hand)
 Urgent == (\E s \in Srcs : inbox[s] # <<>> /\ ~SrcGone(s)) => lastAct'.k = "recv"
